@@ -671,6 +671,18 @@ func TestVerifC15(t *testing.T) {
 		}()
 	}
 	wg.Wait()
+	// a verdict that depends on where a control action fell relative to a 40 ms wait can stay open on a loaded machine:
+	// such scripts are run again one at a time, with nothing else going on
+	for i := range scripts {
+		timeouts := 0
+		for try := 0; try < 8 && (strings.HasPrefix(results[i], "inconclusive:") || (strings.HasPrefix(results[i], "timeout:") && timeouts < 2)); try++ {
+			if strings.HasPrefix(results[i], "timeout:") {
+				timeouts++
+			}
+			time.Sleep(20 * time.Millisecond)
+			results[i] = runScript(scripts[i], variants[i])
+		}
+	}
 	for i, s := range scripts {
 		o.line(s.request(), results[i])
 	}
